@@ -430,7 +430,8 @@ fn run_query_pairs(pre: u8) {
 
 /// C16 (graph half): `reorder_nodes` iterates two `HashSet`s, whose iteration order is unspecified (random per process).
 /// The same add_edge is applied to two identically built DAGs: on A the model yields the sets in a solver-chosen order,
-/// on B in slot order. Result, ranks and adjacency order must not depend on that order.
+/// on B in slot order. Result, ranks and adjacency order must not depend on that order. (The order on A is one of five fixed
+/// alternative orders chosen by the solver per arm — all permutations for sets of up to three elements.)
 #[cfg(kani)]
 fn run_c16(pre: u8) {
   let (mut a, mut st) = setup(pre);
@@ -452,12 +453,14 @@ fn run_c16(pre: u8) {
     }
     i += 1;
   }
-  split((NH * NH) as u8, |k| {
+  split((NH * NH) as u8, |k| { split(5, |mode| {
     let (x, y) = ((k as usize) / NH, (k as usize) % NH);
     if x >= st.rf.nh || y >= st.rf.nh { return; }
-    std::kcoll::set_symbolic_order(true);
+    // only edges that trigger a reorder are interesting here
+    if !(st.rf.alive[x] && st.rf.alive[y] && st.ranks[x] > st.ranks[y]) { return; }
+    std::kcoll::set_order_mode(mode + 1);
     let ra = a.add_edge(&st.nodes[x], &st.nodes[y], 1);
-    std::kcoll::set_symbolic_order(false);
+    std::kcoll::set_order_mode(0);
     let rb = b.add_edge(&nb[x], &nb[y], 1);
     assert!(ra == rb, "C16 add_edge result is independent of hash-set iteration order");
     let mut h = 0;
@@ -470,33 +473,33 @@ fn run_c16(pre: u8) {
     }
     // ranks still a valid order on A
     if ra.is_ok() { if ra == Ok(true) { st.rf.data[x][y] = Some(1); } check_ranks(&a, &mut st); }
-    vcover!(ra == Ok(true) && st.ranks[x] < st.ranks[y], "an accepted edge (possibly after a reorder)");
-  });
+    vcover!(ra == Ok(true), "an accepted edge that needed a reorder");
+  }); });
   ::std::mem::forget(a); ::std::mem::forget(b);
 }
 
-// (not registered: exceeds the time cap, DESIGN §6)
+//@h props=C16 tier=quick unwind=45 stubs=sort timeout=1500 covers_required="needed a reorder"
 #[cfg(kani)]
 fn c16_reorder_independent_of_set_order_pre2() { run_c16(2); }
-// (not registered: exceeds the time cap, DESIGN §6)
+//@h props=C16 tier=thorough unwind=45 stubs=sort timeout=1500 covers_required="needed a reorder"
 #[cfg(kani)]
 fn c16_reorder_independent_of_set_order_pre5() { run_c16(5); }
-// (not registered: exceeds the time cap, DESIGN §6)
+//@h props=C16 tier=thorough unwind=45 stubs=sort timeout=1500 covers_required="needed a reorder"
 #[cfg(kani)]
 fn c16_reorder_independent_of_set_order_pre9() { run_c16(9); }
-// (not registered: exceeds the time cap, DESIGN §6)
+//@h props=C16 tier=quick unwind=45 stubs=sort timeout=1500 covers_required="needed a reorder"
 #[cfg(kani)]
 fn c16_reorder_independent_of_set_order_pre10() { run_c16(10); }
-// (not registered: exceeds the time cap, DESIGN §6)
+//@h props=C16 tier=quick unwind=45 stubs=sort timeout=1500 covers_required="needed a reorder"
 #[cfg(kani)]
 fn c16_reorder_independent_of_set_order_pre11() { run_c16(11); }
-// (not registered: exceeds the time cap, DESIGN §6)
+//@h props=C16 tier=quick unwind=45 stubs=sort timeout=1500 covers_required="needed a reorder"
 #[cfg(kani)]
 fn c16_reorder_independent_of_set_order_pre13() { run_c16(13); }
-// (not registered: exceeds the time cap, DESIGN §6)
+//@h props=C16 tier=thorough unwind=45 stubs=sort timeout=1500 covers_required="needed a reorder"
 #[cfg(kani)]
 fn c16_reorder_independent_of_set_order_pre7() { run_c16(7); }
-// (not registered: exceeds the time cap, DESIGN §6)
+//@h props=C16 tier=thorough unwind=45 stubs=sort timeout=1500 covers_required="needed a reorder"
 #[cfg(kani)]
 fn c16_reorder_independent_of_set_order_pre12() { run_c16(12); }
 //@h props=C10 tier=quick unwind=45 stubs=sort
